@@ -49,6 +49,12 @@ CAUGHT = {
  "C08d": "C08 `TV_Bounds` (replay limit not enforced without a budget)", "C11d": "C11 `TV_Stream` (anchors of a later document visible in the next ones)",
  "C12d": "C12 `TV_Quoting` (block scalar whose first non-empty line is blanks only)", "C16d": "C16 `TV_Locations` (use site of leaves below an aliased container)",
  "C17d": "C17 `TV_Snippet` (marker of the definition window)",
+ "C03e": "C03 `TV_MapAccess` on the repeated-source family (one anchored source merged several times in a mapping, other sources in between; added for it)",
+ "C05e": "C05 `TV_TypedCursor` on the after-failure records (the document after a failed one in a stream, added for it) and C11 `TV_Stream` on the iterators of pairs (`iter-of-pairs`, added for it)",
+ "C13e": "C13 `TV_Emitter` with enum variants with a payload in key position (`Emitter!CKeys`; added for it - which exposed a genuine defect, repaired by `a71383f`)",
+ "C14e": "C14 `TV_AnchorStore` on the `stream` container (two documents over the same allocations written by one to_string_multiple call; added for it)",
+ "C16e": "C16 `TV_Locations` (definition site of errors below an aliased container)",
+ "C18e": "C18 `TV_PathMap` (use site of fields below a merged container)",
  "C02e": "C02 `TV_LiveEvents` on stale-alias streams with a leading anchored document (three documents; added for it); also C11",
  "C04e": "C04 `TV_MapAccess` on the wide-mapping family (6-40 distinct keys, a key repeated next to a capacity boundary; added for it)",
  "C07e": "C07 `TV_Budget` on the `y3n` streams (document, over-limit document failing inside a sequence, document again)",
